@@ -207,6 +207,8 @@ def run_case(case):
     sigs, hist = [], {}
     fam = case["fam"]
     tmpdir = None
+    import atexit
+    import shutil as _sh
     with env.Capture() as cap:
         if fam == "synth":
             for _ in range(case["count"]):
@@ -238,6 +240,7 @@ def run_case(case):
                 at = at.sub(tissue.random_connected_subset(rng, at, int(rng.integers(1, len(at.cells) + 1))))
             rec = gse.records_from_tissue(rng, at, k=(0, 5), orphans=int(rng.integers(0, 4)))
             tmpdir = tempfile.mkdtemp(prefix="fv-c09-")
+            atexit.register(_sh.rmtree, tmpdir, True)
             path = os.path.join(tmpdir, "t.dmp")
             gse.write_dump(path, rec["V"], rec["Ed"], rec["F"], rec["B"], wrap=int(rng.integers(3, 14)))
             lat = se.SurfaceEvolver(path)
@@ -253,6 +256,7 @@ def run_case(case):
             from forsys import skeleton
             from fv.gen import raster
             tmpdir = tempfile.mkdtemp(prefix="fv-c09-")
+            atexit.register(_sh.rmtree, tmpdir, True)
             img, info = raster.voronoi_image(rng, ncells=int(rng.integers(4, 30)), clean=not case["raw"])
             path = os.path.join(tmpdir, "t.tif")
             raster.save(img, path)
